@@ -794,6 +794,37 @@ def opPtr (f : Fam) (full : Bool) (x : Text) (out : String) : String × String :
 
 def bad : String × String := ("bad-op", "FAIL malformed request")
 
+/-- C20 for the borrowed data-URL type: the views are sub-slices at the offsets of the scanner's
+model, and nothing was allocated (acceptance itself is C18's) -/
+def opPtrData (x : Text) (out : String) : String × String :=
+  if Model.dataurlLine x == "0" || out.startsWith "invalid" then ("invalid", "skip")
+  else match Model.DataUrl.parse x with
+    | none => ("invalid", "skip")
+    | some d =>
+      let mt := Model.DataUrl.ownedMediaType d x
+      let data := Model.DataUrl.ownedData d x
+      let n := x.length
+      let kvs := (out.splitOn " ").filterMap fun t =>
+        match t.splitOn "=" with
+        | [k, v] => some (k, v)
+        | _ => none
+      let g := fun k => parseLoc (field kvs k)
+      let mtR := match mt with
+        | some t => Loc.range 5 (5 + t.length)
+        | none => Loc.absent
+      let dR := Loc.range (n - data.length) n
+      let showL := fun (l : Loc) => match l with
+        | .range a b => s!"{a}+{b - a}"
+        | .absent => "-"
+        | _ => "?"
+      let m := s!"whole=0+{n} media_type={showL mtR} data={showL dR} parts_media_type={showL mtR} parts_data={showL dR} uri=0+{n} allocs=0"
+      let o := verdict (firstFail [
+        check (g "whole" == .range 0 n && g "uri" == .range 0 n) "the parsed data URL does not occupy exactly the caller's input",
+        check (g "media_type" == mtR && g "parts_media_type" == mtR) "the media type is not the sub-slice of the input behind `data:`",
+        check (g "data" == dR && g "parts_data" == dR) "the data is not the tail sub-slice of the input",
+        check (field kvs "allocs" == "0") ("borrowed data-URL parsing/accessors allocated: " ++ out)])
+      (m, o)
+
 def dispatch (opLine out : String) : String × String :=
   let t := opLine.splitOn " "
   match t with
@@ -895,6 +926,10 @@ def dispatch (opLine out : String) : String × String :=
     match Fam.ofString? f, unhex x with
     | some f, some x => opPtr f (c == "full") x out
     | _, _ => bad
+  | ["ptrdata", x] =>
+    match unhex x with
+    | some x => opPtrData x out
+    | none => bad
   | ["hash", f, kind, a] =>
     match Fam.ofString? f, unhex a with
     | some f, some a => opHash f kind a out
